@@ -139,7 +139,7 @@ func vmalformed(r *vrand, i int) []byte {
 	case 3:
 		var sb bytes.Buffer
 		for j := 0; j < 1+r.intn(60); j++ {
-			sb.WriteString([]string{"a-\n", "-\n", "b-\n\n", "x- \n y", "-", "\n", " ", "q-\r\n", "1.2-\n3"}[r.intn(9)])
+			sb.WriteString([]string{"a-\n", "-\n", "b-\n\n", "x- \n y", "-", "\n", " ", "q-\r\n", "1.2-\n3", "(-\n) ", "Copyright 20-\n20 Foo\n", "w-\n  \n", "c-\nd-\ne "}[r.intn(13)])
 		}
 		return sb.Bytes()
 	case 4:
